@@ -30,6 +30,33 @@ def calls_named(r, suffix):
     return [e for e in r.trace if e[0] in ("call", "eff") and isinstance(e[1], str) and e[1].endswith(suffix)]
 
 
+def _borrowing_seq_wrapper(ctx, val):
+    """`&Wrapper(&self.orders)` where Wrapper's Serialize is `serializer.collect_seq(self.0.iter().map(..))`: the list is
+    written in place, in order, through a crate-local newtype"""
+    aggs = [x for x in subterms(val) if isinstance(x, tuple) and x and x[0] == "agg" and isinstance(x[1], str) and not x[1].startswith("closure:")]
+    for a in aggs:
+        name = a[1].split("::")[-1]
+        try:
+            wb = ctx.db.method(name, "serialize", trait="Serialize")
+        except Exception:
+            continue
+        names = [t["callee"]["name"] for bb, t in wb.calls() if t["callee"]]
+        for c in ctx.db.closures_of(wb.defp):
+            names += [t["callee"]["name"] for bb, t in c.calls() if t["callee"]]
+        if "collect_seq" in names and "iter" in names and not any(n in names for n in ("rev", "sort", "sort_by", "sort_by_key", "filter", "skip", "take", "step_by")):
+            return True
+    return False
+
+
+def _same_hasher(r, writer_ev, fin_ev):
+    """the value finalize consumes is the local the writer call mutated (`("mut", <to_writer call>, 0)` over the hasher)"""
+    recv = fin_ev[2][0] if fin_ev[2] else None
+    for x in subterms(recv):
+        if isinstance(x, tuple) and len(x) == 3 and x[0] == "mut" and x[1] == writer_ev[3]:
+            return True
+    return False
+
+
 def run(ctx, chk):
     for k, v in RULES.items():
         chk.rule(k, v)
@@ -155,6 +182,19 @@ def run(ctx, chk):
         if not (isinstance(v, tuple) and v[0] == "agg" and v[2] == "Ok"):
             continue
         tv = calls_named(r, "serde_json::to_vec") + calls_named(r, "serde_json::to_string") + calls_named(r, "serde_json::ser::to_vec")
+        tw = calls_named(r, "serde_json::to_writer") + calls_named(r, "serde_json::ser::to_writer")
+        if not tv and len(tw) == 1:
+            # streaming form: serde_json::to_writer(&mut hasher, snapshot) feeds the same bytes to the hasher's io::Write
+            a0, a1 = tw[0][2][0], argv(tw[0])[1]       # a0: the raw `&mut hasher` argument
+            fin = calls_named(r, "::finalize")
+            okw = a1 == PARAM1_REF and isinstance(a0, tuple) and a0[0] == "ref" and bool(a0[2]) and not calls_named(r, "::update")
+            chk.require(okw, "S4", b.defp + ":whole-snapshot", b.span, "the hashed payload is not the whole snapshot parameter streamed into the hasher: %s" % short(a1), describe_path(r))
+            # the hasher written to is the one finalized: finalize's receiver is the same local
+            okh = bool(okw and len(fin) == 1 and _same_hasher(r, tw[0], fin[0]))
+            chk.require(okh, "S4", b.defp + ":hash-of-payload", b.span, "the digest finalized is not the hasher the snapshot was streamed into", describe_path(r))
+            okf = bool(fin) and any(s2 == fin[0][3] for s2 in subterms(dict(v[3])["0"]))
+            chk.require(okf, "S4", b.defp + ":returns-digest", b.span, "the returned checksum does not derive from the finalized digest", describe_path(r))
+            continue
         okt = len(tv) == 1 and argv(tv[0])[0] == PARAM1_REF
         chk.require(okt, "S4", b.defp + ":whole-snapshot", b.span, "the hashed payload is not serde_json::to_vec(<the whole snapshot parameter>): %s" % [short(e[2][0]) for e in tv], describe_path(r))
         up = calls_named(r, "::update") + calls_named(r, "::chain_update")
@@ -197,7 +237,10 @@ def run(ctx, chk):
                 chk.require(bool(fed), "S4", sb.defp + ":" + k, sb.span, "key %s is fed by %s, not by self.%s" % (k, short(val)[:120], k), describe_path(r))
                 if k == "orders":
                     sv = short(val)
-                    chk.require("rev" not in sv and "sort" not in sv and "collect" in sv, "S4", sb.defp + ":orders-forward", sb.span, "orders serialized as %s" % sv[:200])
+                    okfw = "rev" not in sv and "sort" not in sv and "collect" in sv
+                    if not okfw:
+                        okfw = _borrowing_seq_wrapper(ctx, val)
+                    chk.require(okfw, "S4", sb.defp + ":orders-forward", sb.span, "orders serialized as %s" % sv[:200])
     chk.require(full_paths >= 1, "S4", sb.defp + ":analysed", sb.span, "no complete serialization path")
     closure_types = ("OrderType", "OrderId", "Side", "TimeInForce", "PegReferenceType", "PriceLevelSnapshotPackage", "PriceLevelSnapshot")
     for a in db.attrs:
